@@ -6,6 +6,7 @@ import (
 	"io"
 	"os"
 	"path/filepath"
+	"runtime"
 	"sort"
 	"strings"
 	"sync"
@@ -443,6 +444,24 @@ func (d *Disk) Snapshot(src, dst string) error {
 	d.stMu.Lock()
 	defer d.stMu.Unlock()
 	return CopyTree(src, dst)
+}
+
+// StackHas reports whether a function whose name contains substr is on the calling goroutine's stack.
+// Fault plans use it to aim a storage fault at a particular step of the code under test (for example the
+// write issued by LevelDbStore.UpdateSignatureCertificate) without knowing its operation number.
+func StackHas(substr string) bool {
+	pcs := make([]uintptr, 64)
+	n := runtime.Callers(2, pcs)
+	frames := runtime.CallersFrames(pcs[:n])
+	for {
+		f, more := frames.Next()
+		if strings.Contains(f.Function, substr) {
+			return true
+		}
+		if !more {
+			return false
+		}
+	}
 }
 
 // CopyTree copies a directory recursively (regular files and directories only).
